@@ -221,6 +221,24 @@ fn check_sets(table: &[f32], pairs: &[(Vec<u8>, Vec<u8>)], scale: f64, stats: &m
                     "pair {pi}: cached results ({c1}, second visit {c2}, transposed {crev}) differ from uncached ({g}, transposed {rev}) for {ia:?} x {ib:?}"
                 );
             }
+            // a set compared with ITSELF (the same object on both sides): the matrix is T[A_i][A_j],
+            // not its symmetrisation
+            if !ia.is_empty() {
+                for (ci, (comb, name)) in COMBS.iter().enumerate() {
+                    stats.eval(1);
+                    let want = reference(*comb, ia.len(), ia.len(), &|i, j| f64::from(table[ia[i] * NT + ia[j]]));
+                    let r = guarded(|| (GroupSimilarity::new(*comb, tab.clone()).calculate(&sa, &sa), sa.similarity(&sa, tab.clone(), *comb), cached[ci].calculate(&sa, &sa)));
+                    let (g, s2, c) = match r {
+                        Ok(v) => v,
+                        Err(p) => return fail(format!("group/{name}/panic"), format!("similarity of the set {ia:?} with itself panicked: {p}")),
+                    };
+                    ensure!(close_s(g, want, 1e-4, scale), format!("group/{name}/same-object"), "GroupSimilarity({name}) of the set {ia:?} with itself (same object) = {g}, combination of the pair matrix gives {want}");
+                    ensure!(s2.to_bits() == g.to_bits() && c.to_bits() == g.to_bits(), format!("group/{name}/same-object"), "set {ia:?} with itself: HpoSet::similarity {s2}, cached {c}, GroupSimilarity {g}");
+                }
+                if ia.len() >= 2 && !symmetric {
+                    stats.label("sets:same-object-asymmetric-table");
+                }
+            }
             // term level cache: (a,b), (b,a), (a,b) again
             for x in sa.iter() {
                 for y in sb.iter() {
@@ -321,7 +339,7 @@ impl Property for C05 {
         "C05"
     }
     fn rule(&self) -> String {
-        "Generated: (a) raw r x c matrices, r,c in 0..=8 plus 1x40 and 40x1, finite f32 entries drawn from few values per matrix (ties among maxima), one case in six scaled by 10^e, e in -36..=33 (compared after dividing by the scale), through StandardCombiner::{FunSimAvg,FunSimMax,Bma}::calculate; integer matrices for rows()/cols()/dim()/len() against index arithmetic; (b) on a flat 40-term ontology: sequences of 1-6 pairs of term sets (sizes 0..=8, occasionally 31-40 members) and a user-supplied Similarity that looks pairs up in a generated 40x40 table (asymmetric or symmetrised), through GroupSimilarity::calculate and HpoSet::similarity; (c) the same sequence through one CachedSimilarity per combiner (second visit, transposed pair) and term-level (a,b),(b,a),(a,b). Oracle: the three definitions evaluated in f64 on M[i][j] = T[A_i][B_j] (ascending ids), tolerance 1e-4; 0 for an empty side; argument-order independence for symmetric tables (1e-6); cached results bit-identical to uncached. evaluations = combiner evaluations. Non-trivial = non-square non-empty matrix whose row-max mean differs from its column-max mean, or a set pair of unequal non-zero sizes; distinct by hash of the case.".into()
+        "Generated: (a) raw r x c matrices, r,c in 0..=8 plus 1x40 and 40x1, finite f32 entries drawn from few values per matrix (ties among maxima), one case in six scaled by 10^e, e in -36..=33 (compared after dividing by the scale), through StandardCombiner::{FunSimAvg,FunSimMax,Bma}::calculate; integer matrices for rows()/cols()/dim()/len() against index arithmetic; (b) on a flat 40-term ontology: sequences of 1-6 pairs of term sets (sizes 0..=8, occasionally 31-40 members) and a user-supplied Similarity that looks pairs up in a generated 40x40 table (asymmetric or symmetrised), through GroupSimilarity::calculate and HpoSet::similarity; (c) the same sequence through one CachedSimilarity per combiner (second visit, transposed pair), every set also compared with itself as the same object on both sides, and term-level (a,b),(b,a),(a,b). Oracle: the three definitions evaluated in f64 on M[i][j] = T[A_i][B_j] (ascending ids), tolerance 1e-4; 0 for an empty side; argument-order independence for symmetric tables (1e-6); cached results bit-identical to uncached. evaluations = combiner evaluations. Non-trivial = non-square non-empty matrix whose row-max mean differs from its column-max mean, or a set pair of unequal non-zero sizes; distinct by hash of the case.".into()
     }
     fn assumptions(&self) -> Vec<String> {
         vec!["term similarities are finite (NaN entries are outside the domain: maxima are taken with '>')".into(), "f32 sums compared with f64 reference within 1e-4 relative".into()]
@@ -333,7 +351,7 @@ impl Property for C05 {
         }
     }
     fn required_labels(&self, _tier: Tier) -> Vec<&'static str> {
-        vec!["nontrivial", "matrix:rect-row!=col-means", "matrix:empty", "matrix:1x40", "int-matrix", "sets:unequal-sizes", "sets:empty", "sets:more-than-30-members", "sets:symmetric-table", "sets:asymmetric-table", "sets:cache-reused-over-several-pairs"]
+        vec!["nontrivial", "matrix:rect-row!=col-means", "matrix:empty", "matrix:1x40", "int-matrix", "sets:unequal-sizes", "sets:empty", "sets:more-than-30-members", "sets:symmetric-table", "sets:asymmetric-table", "sets:cache-reused-over-several-pairs", "sets:same-object-asymmetric-table", "magnitude:huge", "magnitude:tiny"]
     }
     fn run_generated(&self, _tier: Tier, seed: u64, n: u64, stats: &mut Stats) -> Option<(Value, Failure)> {
         run_typed(strategy(), seed, n, stats, check)
